@@ -56,7 +56,7 @@ class Infra(Exception):
 
 class LibPanic(Infra):
     """The harness process died from a panic raised inside pat-go (first non-runtime frame is library code).
-    For most properties this is still 'no verdict' (exit 2); C03 turns it into a violation."""
+    bin/check turns it into a violation of the property whose driver was running (the case is replayable)."""
 
     def __init__(self, msg, args, frame, stack):
         Infra.__init__(self, msg)
@@ -67,20 +67,30 @@ def library_panic(stderr):
     """(frame, stack) if stderr is a Go panic whose first non-runtime frame is in pat-go."""
     i = stderr.find("panic: ")
     if i < 0:
+        # runtime-detected misuse of shared state (e.g. "fatal error: concurrent map writes"): the faulting goroutine's
+        # stack follows; attributed to the library only if its first non-runtime frame is library code
+        i = stderr.find("fatal error: concurrent map")
+    if i < 0:
         return None
     j = stderr.find("goroutine ", i)
     if j < 0:
         return None
     lines = stderr[j:].splitlines()[1:]
+    # frames of the faulting goroutine, innermost first: the panic is the library's if library code is on the stack below
+    # the fault and above any driver frame (the fault itself may be raised in a dependency the library called), or if the
+    # goroutine was started by the library
     for k in range(0, len(lines) - 1, 2):
         fn = lines[k].strip()
         if not fn or fn.startswith("goroutine "):
             break
-        if fn.startswith("panic(") or fn.startswith("runtime.") or fn.startswith("runtime/"):
-            continue
+        if fn.startswith("created by "):
+            if fn.startswith("created by github.com/cloudflare/pat-go/"):
+                return fn.split(" in ")[0][len("created by "):], stderr[i:i + 3000]
+            return None
+        if fn.startswith("main.") or fn.startswith("verif/"):
+            return None
         if fn.startswith("github.com/cloudflare/pat-go/"):
             return fn.split("(")[0], stderr[i:i + 3000]
-        return None
     return None
 
 
@@ -88,7 +98,7 @@ def library_panic(stderr):
 # Calibrated on this 16-core sandbox so that a thorough run of a property takes roughly 5-10 minutes;
 # VERIF_DEPTH in the environment overrides it.
 DEPTH = {"C01": 24, "C02": 16, "C03": 16, "C04": 12, "C05": 600, "C06": 16, "C07": 2500, "C08": 10, "C09": 2, "C10": 64,
-         "C11": 24, "C12": 48, "C13": 20, "C14": 14, "C15": 40, "C16": 1, "C17": 5, "C18": 4000, "C19": 1, "C20": 1}
+         "C11": 24, "C12": 12, "C13": 20, "C14": 14, "C15": 40, "C16": 1, "C17": 5, "C18": 4000, "C19": 1, "C20": 1}
 
 
 class Ctx:
